@@ -1,6 +1,8 @@
 import OdakModel.Exec.OpsGenObj
 import OdakModel.Exec.OpsWave
 import OdakModel.PropagatorObjectInst
+import OdakModel.LossObjectsInst
+import OdakModel.MeshObjectInst
 /-! Driver ops that RUN the regenerated object models INSTANTIATED with the grid model (work package 16) at `Float` on real fields: the
     step functions of `Generated/PropagatorObject.lean` over a heap of tensors `Ten Float` with the operations `propOpsGrid` - the very record
     `C06_gen_object_documented_model_every_call_list` is about, at another scalar type.  `harness/props/genobjects_inst.py` compares the
@@ -98,6 +100,80 @@ def gpiSeq (a : List Int) : String :=
     let ndl := (r.1.number_of_depth_layers.getD 0).toNat
     " | ".intercalate (gpiRun x h w nf ndl nch (x.getD p7 0).toNat (p7 + 1) r.1 r.2.1 [])
 
-def opsGenObjInst : List (String × Handler) := [("gpi_seq", gpiSeq)]
+/-! ### `multiplane_loss` with `lossOpsGrid` -/
+
+def gliRun (x : Array Int) (n c h w : Nat) : Nat → Nat → MultiplaneLossAttrs (Ten Float) Float → Heap (Ten Float) → List String → List String
+  | 0, _, _, _, acc => acc.reverse
+  | k + 1, off, s, hp, acc =>
+    let E : LossObjOps (Ten Float) Float := lossOpsGrid
+    if x.getD off 0 = 0 then
+      match mplGetTargetsG E s hp with
+      | none => ("RAISE" :: acc).reverse
+      | some r => gliRun x n c h w k (off + 1) r.1 r.2.1
+          ((showTen [n, c, h, w] r.2.2.1.1 ++ " ; " ++ showTen [c, h, w] r.2.2.1.2.1 ++ " ; " ++ showTen [h, w] r.2.2.1.2.2) :: acc)
+    else
+      let plane : Option Int := if x.getD (off + 1) 0 != 0 then some (x.getD (off + 2) 0) else none
+      let img := readRealTen x (off + 3) [c, h, w]
+      let tgt := readRealTen x (off + 3 + c * h * w) [c, h, w]
+      match mplCallG E s hp img tgt plane with
+      | none => ("RAISE" :: acc).reverse
+      | some r => gliRun x n c h w k (off + 3 + 2 * c * h * w) r.1 r.2.1 (showTen [] r.2.2.1 :: acc)
+
+/-- gli_seq defocus planes blur_size blur_ratio multiplier c h w image*chw depth*hw ncalls {0 | 1 plane_given plane image*chw target*chw}
+    ->  per call, separated by `|`: `targets ; focus_target ; depth` or the loss -/
+def gliSeq (a : List Int) : String :=
+  let x := a.toArray
+  let n := (x.getD 1 0).toNat
+  let c := (x.getD 5 0).toNat; let h := (x.getD 6 0).toNat; let w := (x.getD 7 0).toNat
+  let hp0 : Heap (Ten Float) := ⟨[readRealTen x 8 [c, h, w], readRealTen x (8 + c * h * w) [h, w]]⟩
+  let p := 8 + c * h * w + h * w
+  match mplInitG (lossOpsGrid : LossObjOps (Ten Float) Float) MultiplaneLossAttrs.empty hp0 0 1 (fl (x.getD 3 0)) (x.getD 2 0) (x.getD 1 0)
+      [1.0, 2.1, 0.6] (fl (x.getD 4 0)) (if x.getD 0 0 != 0 then "defocus" else "naive") "mean" () with
+  | none => "RAISE"
+  | some r => " | ".intercalate (gliRun x n c h w (x.getD p 0).toNat (p + 1) r.1 r.2.1 [])
+
+/-! ### `planar_mesh` with `meshOpsGrid` -/
+
+def showRays (t : Ten Float) : String :=
+  let cnt := t.shape.headD 0
+  toString cnt ++ " " ++ showTen [cnt, 2, 3] t
+
+def gmiRun (x : Array Int) (n0 n1 : Nat) : Nat → Nat → PlanarMeshAttrs (Ten Float) Float → Heap (Ten Float) → List String → List String
+  | 0, _, _, _, acc => acc.reverse
+  | k + 1, off, s, hp, acc =>
+    let E : MeshOps (Ten Float) Float := meshOpsGrid
+    let kind := x.getD off 0
+    if kind = 0 then
+      let m := (x.getD (off + 1) 0).toNat
+      match meshMirrorG E s hp (readRealTen x (off + 2) [m, 2, 3]) with
+      | none => ("RAISE" :: acc).reverse
+      | some r => gmiRun x n0 n1 k (off + 2 + 6 * m) r.1 r.2.1 ((showRays r.2.2.1.1 ++ " ; " ++ showRays r.2.2.1.2) :: acc)
+    else if kind = 1 then
+      match meshGetTrianglesG E s hp with
+      | none => ("RAISE" :: acc).reverse
+      | some r => gmiRun x n0 n1 k (off + 1) r.1 r.2.1 (showTen [2 * n0 * n1, 3, 3] r.2.2.1 :: acc)
+    else if kind = 2 then
+      match meshGetSquaresG E s hp with
+      | none => ("RAISE" :: acc).reverse
+      | some r => gmiRun x n0 n1 k (off + 1) r.1 r.2.1 (showTen [n0, n1, 3] r.2.2.1 :: acc)
+    else      -- an optimiser step: the heights tensor is written in place
+      match s.heights with
+      | none => ("RAISE" :: acc).reverse
+      | some l => gmiRun x n0 n1 k (off + 1 + n0 * n1) s (hp.set l (readRealTen x (off + 1) [n0, n1, 1])) ("-" :: acc)
+
+/-- gmi_seq n0 n1 size*2 angles*3 offset*3 heights_given [heights*n0*n1] ncalls {0 m rays*6m | 1 | 2 | 3 heights*n0*n1}
+    ->  per call, separated by `|`: `count rays ; count normals`, the triangles, the squares, or `-` -/
+def gmiSeq (a : List Int) : String :=
+  let x := a.toArray
+  let n0 := (x.getD 0 0).toNat; let n1 := (x.getD 1 0).toNat
+  let nm : Ten Float := Ten.ofList [Float.ofNat n0, Float.ofNat n1]
+  let hg := x.getD 10 0 != 0
+  let hp0 : Heap (Ten Float) := ⟨[readRealTen x 2 [2], nm, readRealTen x 4 [3], readRealTen x 7 [3]] ++ (if hg then [readRealTen x 11 [n0, n1, 1]] else [])⟩
+  let p := 11 + (if hg then n0 * n1 else 0)
+  match meshInitG (meshOpsGrid : MeshOps (Ten Float) Float) PlanarMeshAttrs.empty hp0 0 1 2 3 () (if hg then some 4 else none) with
+  | none => "RAISE"
+  | some r => " | ".intercalate (gmiRun x n0 n1 (x.getD p 0).toNat (p + 1) r.1 r.2.1 [])
+
+def opsGenObjInst : List (String × Handler) := [("gpi_seq", gpiSeq), ("gli_seq", gliSeq), ("gmi_seq", gmiSeq)]
 
 end Odak.Exec
